@@ -122,6 +122,11 @@ func configText(which string, cfg map[string]bool, dir string, optFmts map[strin
 	return "[Global]\n" + g.String() + "[Resolver]\n" + r.String()
 }
 
+// a comment header of more than 4 KiB in front of a configuration (a file is a file whatever its size)
+func bigHeader(text string) string {
+	return strings.Repeat("; this configuration file was generated - do not edit the header ........\n", 70) + text
+}
+
 // stats output is read label by label (further lines may be added to it: only the labelled figures are compared)
 type statsMatcher struct{}
 
@@ -209,6 +214,9 @@ func optionsReplay(e *env) error {
 		// a configuration file may be a symbolic link
 		link := idx%4 == 2
 		writeCfg := func(path, text string) {
+			if idx%6 == 5 {
+				text = bigHeader(text)
+			}
 			if !link {
 				writeFile(path, text)
 				return
@@ -282,7 +290,9 @@ func optionsReplay(e *env) error {
 			args = append(args, "--today", optNows["flag"].Format(effFmt))
 		}
 		if c.NoDb {
-			args = append(args, "--no-database")
+			args = append(args, []string{"--no-database", "--no-database=true"}[idx%2])
+		} else if idx%7 == 3 {
+			args = append(args, "--no-database=false") // the switch spelled out as off: the book comes from the usual sources
 		}
 		nontrivial := 0
 		for _, s := range []string{"db", "log", "fmt", "depth", "today"} {
@@ -376,8 +386,11 @@ func optionsReplay(e *env) error {
 					i++
 					continue
 				}
-				if args[i] == "--no-database" {
-					skip = true
+				if strings.HasPrefix(args[i], "--no-database") {
+					if c.NoDb {
+						skip = true
+					}
+					continue // (--no-database=false: the probe names its own book with -d anyway)
 				}
 				pargs = append(pargs, args[i])
 			}
